@@ -422,7 +422,7 @@ func runMore(a *Analyzer, r *Results) {
 			}
 			ev.Verdict("LK4.proposal", props("C09", "C11", "C01"), "the prepared messages packed into a vote contain the stored proposal of exactly the requested (height, prepared view)", "", okP, "proposal is "+PP(ppm))
 			if okP {
-				ev.Verdict("LK4.prepares", props("C09", "C11", "C05"), "the packed PREPAREs are those stored for (height, prepared view, that proposal's hash)", "", ev.Same(pms, Ext(0, Call("interfaces.GetPrepareMessages", st, h, v, hashT))), "prepares are "+PP(pms))
+				ev.Verdict("LK4.prepares", props("C09", "C11", "C05", "C20"), "the packed PREPAREs are those stored for (height, prepared view, that proposal's hash)", "", ev.Same(pms, Ext(0, Call("interfaces.GetPrepareMessages", st, h, v, hashT))), "prepares are "+PP(pms))
 				ev.Require("LK4.quorum", props("C09", "C11", "C01"), "prepared messages are packed only if the prepare senders of that hash plus the proposer reach quorum in the given committee", "",
 					Truth(Ext(0, Call("quorum.IsQuorum", T("append", "", Call("interfaces.GetPrepareSendersIds", st, h, v, hashT), mid(snd(ppm))), cmt))))
 			}
